@@ -201,10 +201,11 @@ Proof.
     apply RM_loop_iterations. intro i. apply RM_with_scope. rm. apply Hts.
   - (* TMacroDef *) rm.
   - (* TInvoke *)
-    apply RM_bind; [apply RM_get|intro c]. destruct (query_all (symbols c) (current_scope_nx c) [id]); [|apply RM_abort].
+    apply RM_bind; [apply RM_get|intro c]. apply RM_bind; [rm|intro].
+    destruct (query_all (symbols c) (current_scope_nx c) [id]); [|apply RM_abort].
     destruct (find_macro (symbols c) l) as [[[sp params] body]|]; [|rm].
     destruct (negb (length args =? length params)%nat); [apply RM_err1|].
-    apply RM_bind; [rm|intro]. apply RM_bind; [apply RM_eval_macro_args|intro]. apply RM_with_scope.
+    apply RM_bind; [apply RM_eval_macro_args|intro]. apply RM_with_scope.
     apply RM_bind; [apply RM_bind_macro_args|intro; apply Hts].
   - (* TPc *) apply RM_bind; [apply RM_eval_i64|intros v]. rm.
   - (* TSegment *)
